@@ -5,7 +5,11 @@
 (*    of the scope's matrix;                                                 *)
 (*  concurrent scopes ("conc", "conc2r", "concinc"): recorders (RecLimit     *)
 (*    calls each) against a rendering and an upkeep thread (DrainLimit calls *)
-(*    each) at the granularity RFix / RClaim / DDetach / DQok / DDeliver.    *)
+(*    each) at the granularity RFix / RClaim / RAck / DDetach / DQok /      *)
+(*    DDeliver; "concblk": blocks of BS = 2 slots, a recorder with one     *)
+(*    record and one with RecLimit records, one histogram key, a renderer: *)
+(*    blocks fill up, chains of blocks are drained, a recorder can be      *)
+(*    between its claim and its acknowledge in a block behind the tail.    *)
 EXTENDS PromRecorder
 CONSTANTS Scope, MaxOps, RecLimit, DrainLimit, UpLimit
 VARIABLES steps,   \* calls made so far (sequential scopes)
@@ -23,7 +27,7 @@ Cfg(g, gb, ov, nq, u, w) == [globals |-> g, gb |-> gb, ov |-> ov, nq |-> nq, uni
 Sequential == Scope \in {"scalar", "hist", "mixed"}
 CK == CASE Scope = "scalar" -> {C1, C2} [] Scope = "mixed" -> {C2} [] Scope = "concinc" -> {C1} [] OTHER -> {}
 GK == CASE Scope = "scalar" -> {GA, GB} [] Scope = "mixed" -> {GB} [] OTHER -> {}
-HK == CASE Scope = "scalar" -> {} [] Scope = "mixed" -> {H2} [] Scope = "concinc" -> {H2} [] OTHER -> {H1, H2}
+HK == CASE Scope = "scalar" -> {} [] Scope = "mixed" -> {H2} [] Scope \in {"concinc", "concblk"} -> {H2} [] OTHER -> {H1, H2}
 IncVals == {1, 15}      \* with W = 16: 15 + 1 wraps
 AbsVals == {2, 7}
 GVals   == {2, 1003}    \* 1003: id of a special f64 (only ever set)
@@ -50,10 +54,12 @@ MCInit ==
          /\ crec = IF pre THEN (H2 :> (3 :> 1)) ELSE EF
          /\ att = IF pre THEN (H2 :> TRUE) ELSE EF
          /\ ep = IF pre THEN (H2 :> 1) ELSE EF
-         /\ dist = EF /\ lost = EF
-         /\ lock = 0 /\ dkey = NoKey /\ dst = "none" /\ det = EF /\ dep = 0
+         /\ fill = (IF pre THEN (H2 :> 1) ELSE EF)
+         /\ lo = (IF pre THEN (H2 :> 1) ELSE EF)
+         /\ dist = EF /\ lost = EF /\ skipped = EF /\ cfail = FALSE
+         /\ lock = 0 /\ dkey = NoKey /\ dst = "none" /\ det = EF /\ dep = 0 /\ dlo = 0 /\ dcur = 0
          /\ rpc = [p \in Recorders |-> "idle"] /\ rk = [p \in Recorders |-> NoKey]
-         /\ rv = [p \in Recorders |-> 0] /\ rep = [p \in Recorders |-> 0]
+         /\ rv = [p \in Recorders |-> 0] /\ rep = [p \in Recorders |-> 0] /\ after = [p \in Recorders |-> EF]
          /\ dpc = [d \in Drainers |-> "idle"] /\ dop = [d \in Drainers |-> "none"]
          /\ todo = [d \in Drainers |-> {}] /\ csnap = [d \in Drainers |-> EF] /\ gsnap = [d \in Drainers |-> EF]
          /\ buf = [d \in Drainers |-> EF] /\ nbeg = [d \in Drainers |-> EF] /\ bounded = TRUE
@@ -82,22 +88,32 @@ Same == UNCHANGED <<steps, cnt>>
 \* (the sample value is a function of the recorder: fewer symmetric duplicates, bags still tell who recorded)
 VOf(p) == IF p = MinOf(Recorders) THEN 1 ELSE 3
 Lim(d) == IF DrOp(d) = "render" THEN DrainLimit ELSE UpLimit
-MRFix       == ~Sequential /\ \E p \in Recorders, k \in HK : cnt[p] < RecLimit /\ RFix(p, k, VOf(p)) /\ Began(p)
+\* block scope: the first recorder makes one record (it is the one that can stall), the others RecLimit
+RLim(p) == IF Scope = "concblk" /\ p = MinOf(Recorders) THEN 1 ELSE RecLimit
+MRFix       == ~Sequential /\ \E p \in Recorders, k \in HK : rpc[p] = "idle" /\ cnt[p] < RLim(p) /\ RFix(p, k, VOf(p)) /\ Began(p)
+MRRefix     == ~Sequential /\ \E p \in Recorders : rpc[p] = "retry" /\ RFix(p, rk[p], rv[p]) /\ Same
 MRClaimIn   == ~Sequential /\ \E p \in Recorders : RClaimIn(p) /\ Same
 MRClaimLost == ~Sequential /\ \E p \in Recorders : RClaimLost(p) /\ Same
+\* (outside the block scope a failed claim in an unreachable block is left out: it only adds a retry)
+MRFull      == ~Sequential /\ \E p \in Recorders : (Scope = "concblk" \/ InChain(p)) /\ RFull(p) /\ Same
+MRCasFull   == ~Sequential /\ \E p \in Recorders : RCasFull(p) /\ Same
+MRAck       == ~Sequential /\ \E p \in Recorders : RAck(p) /\ Same
 MIncC       == ~Sequential /\ \E p \in Recorders, k \in CK : cnt[p] < RecLimit /\ rpc[p] = "idle" /\ IncA(k, 1) /\ Began(p)
 MDBegin     == ~Sequential /\ \E d \in Drainers : cnt[d] < Lim(d) /\ DBegin(d, DrOp(d)) /\ Began(d)
 MDNull      == ~Sequential /\ \E d \in Drainers : DNull(d) /\ Same
-MDDetach    == ~Sequential /\ \E d \in Drainers, k \in HK : DDetach(d, k) /\ Same
+MDLoad      == ~Sequential /\ \E d \in Drainers, k \in HK : DLoad(d, k) /\ Same
+MDDetach    == ~Sequential /\ \E d \in Drainers : DDetach(d) /\ Same
+MDCasFail   == ~Sequential /\ \E d \in Drainers : DCasFail(d) /\ Same
+MDReload    == ~Sequential /\ \E d \in Drainers : DReload(d) /\ Same
 MDQok       == ~Sequential /\ \E d \in Drainers : DQok(d) /\ Same
 MDDeliver   == ~Sequential /\ \E d \in Drainers : DDeliver(d) /\ Same
 MDFold      == ~Sequential /\ \E d \in Drainers : DFold(d) /\ Same
 MDEnd       == ~Sequential /\ \E d \in Drainers : DEnd(d) /\ Same
 
 MCNext == \/ MRegisterC \/ MRegisterG \/ MRegisterH \/ MInc \/ MAbs \/ MSet \/ MIncG \/ MDecG \/ MRecord \/ MDescribe \/ MUpkeep \/ MRender
-          \/ MRFix \/ MRClaimIn \/ MRClaimLost \/ MIncC \/ MDBegin \/ MDNull \/ MDDetach \/ MDQok \/ MDDeliver \/ MDFold \/ MDEnd
+          \/ MRFix \/ MRRefix \/ MRClaimIn \/ MRClaimLost \/ MRFull \/ MRCasFull \/ MRAck \/ MIncC \/ MDBegin \/ MDNull \/ MDLoad \/ MDDetach \/ MDCasFail \/ MDReload \/ MDQok \/ MDDeliver \/ MDFold \/ MDEnd
 MCSpec == MCInit /\ [][MCNext]_mvars
 
 \* at the end of a concurrent run (everything finished) a last render is complete
-AllDone == ~Sequential /\ Quiet /\ \A p \in Recorders \cup Drainers : cnt[p] = (IF p \in Recorders THEN RecLimit ELSE Lim(p))
+AllDone == ~Sequential /\ Quiet /\ \A p \in Recorders \cup Drainers : cnt[p] = (IF p \in Recorders THEN RLim(p) ELSE Lim(p))
 =============================================================================
